@@ -94,7 +94,7 @@ def rule_pairing(ctx, rule="C05-pair"):
     if u:
         ds = [describe(u, ("call", bb) if si == "term" else u.origin_rvalue(x)) for (bb, si, x) in u.defs.get(0, [])]
         calls = [(callee_name(t), [describe(u, u.origin_operand(a)) for a in t["args"]]) for _, t in u.calls()]
-        ok = ds == ["v0(p1)"] and calls == [(UW + "::do_panic_with_msg", ["v1(p1)"])]
+        ok = ds == ["ok(p1)"] and calls == [(UW + "::do_panic_with_msg", ["err(p1)"])]
         ctx.ob(rule, UW, "Ok->value,Err->panic(err)", ok, how="match self { Ok(v) => v, Err(e) => do_panic_with_msg(e) }", detail="unwrap_with_msg returns %s, calls %s" % (ds, calls))
     d = F.bodies.get(UW + "::do_panic_with_msg")
     if d:
@@ -102,17 +102,31 @@ def rule_pairing(ctx, rule="C05-pair"):
         disp = [t for _, t in d.calls() if callee_name(t).endswith("::new_display")]
         ok = len(disp) == 1 and describe(d, d.origin_operand(disp[0]["args"][0])) in ("&p1", "&mem:1", "&local:1", "&mem:error") and names[-1] == "core::panicking::panic_fmt" and not any("new_debug" in n for n in names)
         ctx.ob(rule, d.path, "message=Display(err)", ok, how="panic!(\"{error}\"): the only argument is the error's Display", detail="do_panic_with_msg builds its message with %s" % names)
-    # constructors that cannot report: From<&str|String|&String|Box<str>> = LeanString(Repr::from_str(..).unwrap_with_msg())
+    # constructors that cannot report: From<&str|String|&String|Box<str>> go through Repr::from_str and
+    # turn its error into the message panic (unwrap_with_msg), possibly inside a private helper
+    from guards import inlined_calls
     n = 0
     for i in F.impls:
         if i["self"] == "LeanString" and i["trait"] == "core::convert::From" and i["trait_args"] and i["trait_args"][0] in ("&str", "alloc::string::String", "&alloc::string::String", "alloc::boxed::Box<str>"):
             b = F.bodies.get(i["items"].get("from"))
             if b:
                 n += 1
-                ds = [describe(b, ("call", bb) if si == "term" else b.origin_rvalue(x)) for (bb, si, x) in b.defs.get(0, [])]
-                ok = len(ds) == 1 and re.match(r"^LeanString::LeanString\{%s\(repr::Repr::from_str\(.*p1.*\)\)\}$" % re.escape(UW), ds[0]) is not None
-                ctx.ob(rule, b.path, "from=from_str.unwrap_with_msg", ok, how="LeanString(Repr::from_str(text).unwrap_with_msg())", detail="From<%s> is %s" % (i["trait_args"][0], ds))
+                names = [callee_name(t) for _, _, t in inlined_calls(b)]
+                ok = "repr::Repr::from_str" in names and UW in names and not [x for x in names if x in FORBIDDEN_CONSUMERS]
+                ctx.ob(rule, b.path, "from=from_str.unwrap_with_msg", ok, how="Repr::from_str(text) consumed by unwrap_with_msg", detail="From<%s> calls %s" % (i["trait_args"][0], names))
     ctx.need(rule, "crate", "From-ctors", n >= 4, "only %d From<text> constructors" % n, how="%d From<text> constructors" % n)
+    # nowhere is a ReserveError-carrying Result consumed by a method that panics with another message
+    bad = []
+    for path, b in F.bodies.items():
+        for bb, t in b.calls():
+            nme = callee_name(t)
+            if nme in FORBIDDEN_CONSUMERS and t["arg_tys"] and "errors::reserve_error::ReserveError>" in t["arg_tys"][0]:
+                bad.append("%s in %s (line %s)" % (nme, path, t.get("line")))
+    ctx.ob(rule, "crate", "no-foreign-unwrap-of-ReserveError", not bad, how="no Result<_, ReserveError> is consumed by unwrap/expect/unwrap_unchecked", detail="allocation failure is turned into a different panic / UB: %s" % bad[:3])
+
+
+FORBIDDEN_CONSUMERS = ("core::result::Result::<T, E>::unwrap", "core::result::Result::<T, E>::expect", "core::result::Result::<T, E>::unwrap_unchecked",
+                       "core::result::Result::<T, E>::unwrap_or_default")
 
 
 def rule_witnesses(ctx, rule="WITNESS", which="C02/C04"):
@@ -121,5 +135,5 @@ def rule_witnesses(ctx, rule="WITNESS", which="C02/C04"):
     if getattr(ctx, "tier", "quick") != "thorough" or not getattr(ctx, "is_first_cfg", False):
         return
     ok, npass, nfail, log = engine.run_witnesses()
-    ctx.ob(rule, "witness", "doctests", ok and npass >= 8, how="%d compile / compile_fail witnesses pass under cargo +nightly test --doc (Send+Sync; no &mut str through Deref [E0596]; no as_mut_str/as_bytes_mut [E0599]; no AsMut<str> [E0277]; each with a compiling twin)" % npass,
+    ctx.ob(rule, "witness", "doctests", ok and npass >= 8, how="%d compile / compile_fail witnesses pass under cargo +nightly test --doc (Send+Sync; no &mut str through Deref [E0596]; no as_mut_str [E0599]; no AsMut<str> [E0277]; each with a compiling twin)" % npass,
            detail="compile witnesses: %d passed, %d failed: %s" % (npass, nfail, log[-400:]))
